@@ -159,6 +159,11 @@ class Check:
                                 skip_reasons={k: v for k, v in self.hist.items() if k.startswith('library-exception') or k.startswith('skipped')},
                                 note='the implementation raised outside the modelled code path on (almost) every case; nothing was compared'),
                            failing_input=False)
+        if len(self.distinct) > self.evaluations:
+            # keys are recorded per compared sub-case (step, dimension, request) while the driver counted whole cases:
+            # every distinct key IS one evaluated comparison, so the evaluation count is at least that
+            self.notes.append('evaluations raised from %d driver cases to %d compared sub-cases' % (self.evaluations, len(self.distinct)))
+            self.evaluations = len(self.distinct)
         findings = json.load(open(os.path.join(ROOT, 'known_findings.json')))
         
         known = [f for f in findings if f['property'] == self.pid and f['status'] == 'known']
